@@ -57,12 +57,13 @@ def auto_summary(facts, name):
 
     def apply(ex, st, bb, args):
         # args[0] is the &mut self reference of the caller
-        if not (isinstance(args[0], tuple) and args[0][0] == "ref"):
+        a0 = args[0]
+        if isinstance(a0, Aff) and a0.c == 0 and len(a0.t) == 1 and list(a0.t)[0].startswith("arg"):
+            root = list(a0.t)[0]  # the receiver reference itself (reborrowed)
+        elif isinstance(a0, tuple) and a0[0] == "ref" and a0[1][1] == ():
+            root = a0[1][0]
+        else:
             return None
-        key = args[0][1]
-        if key[1] != ():
-            return None
-        root = key[0]
         cur = {f: field(st, f, root) for f in INT_FIELDS}
         sub = {"%s@0" % f: cur[f] for f in INT_FIELDS}
         for i, a in enumerate(args):
